@@ -1,9 +1,10 @@
 /-
-  Extension point of the driver: further commands (reference semantics, derivation
-  checker, cache model, registry model, visitor model, checkers) register here.
+  Extension commands of the driver: reference semantics, the ParseCache model, ...
+  (state of the extensions is threaded through the driver loop).
 -/
 import Abnf.Engine
 import Abnf.RefSem
+import Abnf.Cache
 namespace Abnf.Ext
 
 def nats (l : List String) : List Nat := l.map String.toNat!
@@ -14,9 +15,52 @@ def showRRes : RRes → String
   | .ok [] => "fail"
   | .ok js => "ok" ++ String.join (js.map (fun j => " " ++ toString j))
 
-def handle (G : Grammar) (fuel : Nat) (toks : List String) : Option String :=
+/-- state of the extension commands -/
+structure XState where
+  gen : Nat := 0                              -- ParseCache.generation
+  caches : Array (PCache Nat Nat) := #[]      -- live caches, by index
+
+def showCache (g : Nat) (c : PCache Nat Nat) : String :=
+  let (ks, c) := PCache.keys g c
+  "|" ++ String.join (ks.map (fun k => " " ++ toString k)) ++ " | " ++ toString c.hits ++ " " ++ toString c.misses
+
+/-- `cache new <max|->` creates a cache and prints its index;
+`cache <id> get k | set k v | del k | len`, `cache clear`, `cache bump` -/
+def handleCache (toks : List String) (x : XState) : Option (String × XState) :=
   match toks with
-  | "refends" :: r :: i :: cps => some (showRRes (refEnds G fuel (nats cps) (.ref r.toNat!) i.toNat!))
+  | ["new", mx] =>
+    let m := if mx == "-" then none else some mx.toNat!
+    some (toString x.caches.size, { x with caches := x.caches.push (PCache.new m x.gen) })
+  | ["clear"] => some ("done", { x with caches := x.caches.map PCache.clear })
+  | ["bump"] => some ("done", { x with gen := x.gen + 1 })
+  | id :: rest =>
+    let i := id.toNat!
+    match x.caches[i]? with
+    | none => some ("bad-cache", x)
+    | some c =>
+      match rest with
+      | ["get", k] =>
+        let (o, c) := PCache.get x.gen c k.toNat!
+        let out := match o with | some v => "some " ++ toString v | none => "keyerror"
+        some (out ++ " " ++ showCache x.gen c, { x with caches := x.caches.set! i c })
+      | ["set", k, v] =>
+        let c := PCache.set x.gen c k.toNat! v.toNat!
+        some ("done " ++ showCache x.gen c, { x with caches := x.caches.set! i c })
+      | ["del", k] =>
+        match PCache.del x.gen c k.toNat! with
+        | some c => some ("done " ++ showCache x.gen c, { x with caches := x.caches.set! i c })
+        | none =>
+          let c := PCache.dropStale x.gen c
+          some ("keyerror " ++ showCache x.gen c, { x with caches := x.caches.set! i c })
+      | ["show"] => some ("state " ++ showCache x.gen c, x)
+      | _ => none
+  | _ => none
+
+def handle (G : Grammar) (fuel : Nat) (toks : List String) (x : XState) : Option (String × XState) :=
+  match toks with
+  | "refends" :: r :: i :: cps => some (showRRes (refEnds G fuel (nats cps) (.ref r.toNat!) i.toNat!), x)
+  | "cache" :: rest => handleCache rest x
+  | "xreset" :: _ => some ("reset", {})
   | _ => none
 
 end Abnf.Ext
